@@ -482,6 +482,12 @@ func (fr *Frame) doAppend(c *ssa.CallCommon, args []*Val) *Val {
 				sLen(s), dst, base, dstOld, sOff(s), dst, base))
 			vc.fact(fmt.Sprintf("(forall ((o! Int) (l! Int)) (! (=> (and (<= 0 o!) (<= 0 l!) (<= (+ o! l!) %s)) (= (brank %s (+ %s %s o!) l!) (brank %s (+ %s o!) l!))) :pattern ((brank %s (+ %s %s o!) l!))))",
 				n, dst, base, sLen(s), srcArr, sOff(t), dst, base, sLen(s)))
+			// ground instances: the whole appended window and the whole old prefix
+			vc.fact(eq(app("brank", dst, app("+", base, sLen(s)), n), app("brank", srcArr, sOff(t), n)))
+			vc.fact(eq(app("brank", dst, base, sLen(s)), app("brank", dstOld, sOff(s), sLen(s))))
+			// any range of the old prefix (absolute offsets), usable without arithmetic matching
+			vc.fact(fmt.Sprintf("(forall ((o! Int) (l! Int)) (! (=> (and (<= 0 o!) (<= 0 l!) (<= (+ o! l!) %s)) (= (brank %s (+ %s o!) l!) (brank %s (+ %s o!) l!))) :pattern ((brank %s (+ %s o!) l!))))",
+				sLen(s), dstOld, sOff(s), dst, base, dstOld, sOff(s)))
 		}
 		vc.heapSet(fr.st, name, sto(h, ite(fitsC, sArr(s), newArr), dst))
 	}
@@ -530,6 +536,8 @@ func (fr *Frame) doCopy(c *ssa.CallCommon, args []*Val) *Val {
 			// ranks of regions entirely outside the written window are unchanged
 			vc.fact(fmt.Sprintf("(forall ((o! Int) (l! Int)) (! (=> (and (<= 0 l!) (or (<= (+ o! l!) %s) (>= o! (+ %s %s)))) (= (brank %s o! l!) (brank %s o! l!))) :pattern ((brank %s o! l!))))",
 				sOff(d), sOff(d), n, dst, dstOld, dst))
+			// ground instance: the whole copied window
+			vc.fact(eq(app("brank", dst, sOff(d), n), app("brank", srcArr, sOff(s), n)))
 		}
 		vc.heapSet(fr.st, name, sto(h, sArr(d), dst))
 	}
